@@ -212,12 +212,8 @@ func c08() []*Ob {
 						continue
 					}
 					for _, call := range CallsIn(fn, m) {
-						top := fn
-						for top.Parent() != nil {
-							top = top.Parent()
-						}
-						if why, ok := owners[FuncName(top)]; ok {
-							c.Site(call.Pos(), "%s: %s (%s)", FuncName(fn), CallName(call), why)
+						if owner, ok := c.P.OwnedBy(fn, func(n string) bool { _, is := owners[n]; return is }); ok {
+							c.Site(call.Pos(), "%s: %s (%s)", FuncName(fn), CallName(call), owners[owner])
 						} else {
 							c.Violation("own:"+FuncName(fn)+":"+CallName(call), call.Pos(), "%s calls %s but is not one of the functions that own fraction/cache files", FuncName(fn), CallName(call))
 						}
@@ -230,7 +226,7 @@ func c08() []*Ob {
 					}
 					for _, call := range c.P.Callers(fn) {
 						caller := FuncName(call.Parent())
-						if caller == "(*frac.Active).Release" || caller == "(*frac.Active).Suicide" {
+						if _, ok := c.P.OwnedBy(call.Parent(), func(n string) bool { return n == "(*frac.Active).Release" || n == "(*frac.Active).Suicide" }); ok {
 							c.Site(call.Pos(), "%s called from %s", name, caller)
 						} else {
 							c.Violation("own:caller:"+caller+"->"+name, call.Pos(), "%s removes active files but is neither Release nor Suicide", caller)
